@@ -44,6 +44,7 @@ type Event struct {
 	State  *RelState
 	Extra  []string // slice: x, lo, hi, max ; select: channels
 	Static *ssa.Function
+	Edge   int // cond: the successor of the If taken (0: then, 1: else)
 }
 
 type Path struct {
@@ -290,6 +291,8 @@ var pureCallees = map[string]bool{
 	"snapshot.expectWT":          true,
 	"csproto.DecodeVarint":       true,
 	"csproto.SizeOfVarint":       true,
+	"builtin:max":                true,
+	"builtin:min":                true,
 }
 
 // noHeapEffect callees do not invalidate the abstract heap cells.
@@ -462,6 +465,21 @@ func (w *Walker) canonD(st *wstate, fr *frame, v ssa.Value, d int) string {
 	case *ssa.Extract:
 		return w.canonD(st, fr, x.Tuple, d+1) + fmt.Sprintf("#%d", x.Index)
 	case *ssa.FieldAddr:
+		if envRecv(x.X) {
+			// field of a callback method's receiver: named like a captured variable
+			return "free:" + fieldName(x.X.Type(), x.Field)
+		}
+		if len(envMethods) > 0 && len(st.frames) > 1 && envMethods[st.frames[0].fn] != nil {
+			// the same, reached through a helper the receiver was handed to
+			if root := st.frames[0].fn; len(root.Params) > 0 && w.canonD(st, fr, x.X, d+1) == "param:"+root.Params[0].Name() {
+				return "free:" + fieldName(x.X.Type(), x.Field)
+			}
+		}
+		if al, ok := x.X.(*ssa.Alloc); ok && envAllocs[al] {
+			// field of the callback's environment struct in the function that
+			// builds it: named like a separate local
+			return w.envFieldAddr(fr, al, fieldName(x.X.Type(), x.Field))
+		}
 		base := w.canonD(st, fr, x.X, d+1)
 		f := fieldName(x.X.Type(), x.Field)
 		if strings.HasPrefix(base, "&") {
@@ -469,6 +487,9 @@ func (w *Walker) canonD(st *wstate, fr *frame, v ssa.Value, d int) string {
 		}
 		return "&" + base + "." + f
 	case *ssa.Field:
+		if envRecv(x.X) {
+			return "*free:" + fieldName(x.X.Type(), x.Field)
+		}
 		return w.canonD(st, fr, x.X, d+1) + "." + fieldName(x.X.Type(), x.Field)
 	case *ssa.IndexAddr:
 		base := w.canonD(st, fr, x.X, d+1)
@@ -526,6 +547,12 @@ func (w *Walker) canonD(st *wstate, fr *frame, v ssa.Value, d int) string {
 		}
 		return "conv:" + typeShort(x.Type().Underlying()) + "(" + in + ")"
 	case *ssa.MakeClosure:
+		if len(envMethods) > 0 {
+			// a method value standing for a known closure (resolveCallbacks)
+			if m := callbackTarget(w.P.SSA, x); m != nil && envMethods[m] != nil {
+				return "closure:" + QualName(m)
+			}
+		}
 		return "closure:" + calleeName(x.Fn.(*ssa.Function))
 	case *ssa.MakeSlice:
 		return "makeslice(" + w.canonD(st, fr, x.Len, d+1) + "," + w.canonD(st, fr, x.Cap, d+1) + ")@" + x.Name()
@@ -615,6 +642,18 @@ func (w *Walker) argCanon(st *wstate, fr *frame, v ssa.Value, d int) string {
 }
 
 // structLit renders a local struct whose fields were stored one by one.
+// envFieldAddr: the address of a field of a callback environment struct held
+// in the local al, rendered as a local variable of its own.
+func (w *Walker) envFieldAddr(fr *frame, al *ssa.Alloc, field string) string {
+	s := "&alloc:" + field
+	if fr.id > 0 {
+		s += fmt.Sprintf("~%d", fr.id)
+	}
+	w.allocs[s] = al
+	w.heap[s] = true
+	return s
+}
+
 func structLit(st *wstate, addr string) string {
 	prefix := addr + "."
 	var fields []string
@@ -947,7 +986,12 @@ func (w *Walker) block(st *wstate, b *ssa.BasicBlock, pred *ssa.BasicBlock) {
 			for _, in := range lb.Instrs {
 				if s, ok := in.(*ssa.Store); ok {
 					addr := w.canon(st, fr, s.Addr)
-					if a, isAlloc := s.Addr.(*ssa.Alloc); isAlloc && a.Comment != "" {
+					if a, isAlloc := s.Addr.(*ssa.Alloc); isAlloc && envAllocs[a] {
+						stt := envStructPtr(a.Type())
+						for i := 0; i < stt.NumFields(); i++ {
+							delete(st.store, w.envFieldAddr(fr, a, stt.Field(i).Name()))
+						}
+					} else if isAlloc && a.Comment != "" {
 						// a variable assigned in the loop: unknown at the header, named like a loop phi
 						// (go/ssa keeps a variable in memory instead of a phi e.g. when a defer spills named results)
 						st.store[addr] = fmt.Sprintf("loop:%s@%d", a.Comment, b.Index)
@@ -1039,6 +1083,8 @@ func (w *Walker) knownNonNil(v string) bool {
 		return true
 	case v == "global:context.Canceled", v == "global:context.DeadlineExceeded", v == "global:io.EOF":
 		return true
+	case strings.HasPrefix(v, "{"):
+		return true // a struct value compared with nil: an interface made from it, never nil
 	case strings.HasPrefix(v, "global:"):
 		name := strings.TrimPrefix(v, "global:")
 		i := strings.LastIndex(name, ".")
@@ -1109,6 +1155,21 @@ func (w *Walker) instrs(st *wstate, b *ssa.BasicBlock, from int) {
 		case *ssa.Store:
 			addr := w.canon(st, fr, in.Addr)
 			val := w.canon(st, fr, in.Val)
+			if al, ok := in.Addr.(*ssa.Alloc); ok && envAllocs[al] && strings.HasPrefix(val, "{") {
+				if stt := envStructPtr(al.Type()); stt != nil {
+					// a whole callback environment struct assigned: field by field
+					for i := 0; i < stt.NumFields(); i++ {
+						fa := w.envFieldAddr(fr, al, stt.Field(i).Name())
+						if fv, ok := litField(val, stt.Field(i).Name()); ok {
+							st.store[fa] = fv
+							w.emit(st, Event{Kind: "store", Instr: in, Addr: fa, Val: fv})
+						} else {
+							delete(st.store, fa)
+						}
+					}
+					continue
+				}
+			}
 			st.store[addr] = val
 			if fa, ok := in.Addr.(*ssa.FieldAddr); ok && w.Cfg.WatchField != nil {
 				if fv := fieldVar(fa.X.Type(), fa.Field); fv != nil && w.Cfg.WatchField(fv) {
@@ -1309,7 +1370,7 @@ func (w *Walker) branch(st *wstate, b *ssa.BasicBlock, in *ssa.If) {
 				continue
 			}
 			a := atom
-			w.emit(ns, Event{Kind: "cond", Instr: in, Cond: &Cond{Atom: a, Truth: atruth}})
+			w.emit(ns, Event{Kind: "cond", Instr: in, Cond: &Cond{Atom: a, Truth: atruth}, Edge: edge})
 		}
 		w.block(ns, b.Succs[edge], b)
 		if w.Err != nil {
